@@ -47,6 +47,9 @@ type Case struct {
 	Via string `json:"via,omitempty"`
 	// Procs > 0: the constructor runs with the process limited to that many processors.
 	Procs int `json:"procs,omitempty"`
+	// Pre: constructor calls made right before this one (built, not judged): a constructor is a
+	// function of its parameters, whatever was built before.
+	Pre []Case `json:"pre,omitempty"`
 }
 
 const (
@@ -139,6 +142,9 @@ func nodeResult(m modeling.Mesh, err error) modeling.Mesh {
 }
 
 func build(cs Case) modeling.Mesh {
+	for _, p := range cs.Pre {
+		core.Guard(func() { _ = build(p) })
+	}
 	if cs.Procs > 0 {
 		defer runtime.GOMAXPROCS(runtime.GOMAXPROCS(cs.Procs))
 	}
@@ -691,6 +697,7 @@ func run(c *core.Ctx) {
 			}
 		}
 	}
+	nearTwins(c)
 	for _, kind := range []string{"ladder-uvsphere", "ladder-uvsphere-unwelded", "ladder-hemisphere", "ladder-cylinder"} {
 		for _, r := range sc.radii {
 			if c.Next() {
@@ -732,6 +739,9 @@ func one(c *core.Ctx, cs Case) (vol float64, ok bool) {
 	if cs.Procs > 0 {
 		sn += "/processors-limited"
 	}
+	if len(cs.Pre) > 0 {
+		sn += "/after-another-solid"
+	}
 	alarmed := !(cs.Kind == "hemisphere" && !cs.Capped)
 	c.Sample(sn, cs)
 	if o.Panicked {
@@ -771,7 +781,7 @@ func one(c *core.Ctx, cs Case) (vol float64, ok bool) {
 		c.Eval("hemisphere.normals", hn)
 	}
 	if vd.tris > 0 {
-		c.Nontrivial(cs.Kind, cs.Rows, cs.Cols, cs.Sides, cs.R, cs.H, cs.W, cs.D, cs.UV, fmt.Sprint(cs.Capped), cs.Via, cs.Procs)
+		c.Nontrivial(cs.Kind, cs.Rows, cs.Cols, cs.Sides, cs.R, cs.H, cs.W, cs.D, cs.UV, fmt.Sprint(cs.Capped), cs.Via, cs.Procs, fmt.Sprint(cs.Pre))
 	}
 	return vd.volume, out == "ok"
 }
@@ -866,4 +876,54 @@ func replay(c *core.Ctx) {
 		return
 	}
 	one(c, cs)
+}
+
+// nearTwins: every solid right after a solid of the same kind and counts whose sizes differ from its
+// own by a relative 2^-25, 2^-40 (the same number in single precision), by a factor 2, and — for
+// sizes beyond the single-precision range — by a factor 3; in both orders.  A table or memo keyed by
+// rounded, truncated or partial parameters hands the second call the first call's solid; the
+// oracle's tolerances (1e-9 relative) are far below 2^-25.
+func nearTwins(c *core.Ctx) {
+	type rel struct{ a, b float64 }
+	rels := []rel{{1, 1 + 0x1p-25}, {1 + 0x1p-25, 1}, {1, 1 - 0x1p-26}, {1, 1 + 0x1p-40}, {1, 2}, {2, 1}, {1e39, 3e39}, {3e39, 1e39}, {1e-46, 3e-46}, {3e-46, 1e-46}}
+	bases := []Case{
+		{Kind: "cylinder", Sides: 7, R: 1, H: 2},
+		{Kind: "cylinder", Sides: 12, R: 0.75, H: 0.5, UV: "all"},
+		{Kind: "uvsphere", Rows: 5, Cols: 8, R: 1},
+		{Kind: "uvsphere-unwelded", Rows: 4, Cols: 6, R: 2},
+		{Kind: "hemisphere", Rows: 4, Cols: 7, R: 1.5, Capped: true},
+		{Kind: "cube-welded", W: 1, H: 2, D: 3},
+		{Kind: "cube-quads", W: 0.5, H: 1, D: 1.25},
+	}
+	scaled := func(b Case, f float64, which int) Case {
+		// which: 0 all sizes, 1 the first size only, 2 the second size only
+		if which == 0 || which == 1 {
+			b.R, b.W = b.R*f, b.W*f
+		}
+		if which == 0 || which == 2 {
+			b.H, b.D = b.H*f, b.D*f
+		}
+		return b
+	}
+	n := 0
+	for _, b := range bases {
+		for _, r := range rels {
+			for which := 0; which < 3; which++ {
+				if which == 2 && b.H == 0 {
+					continue
+				}
+				if which != 0 && (r.a > 4 || r.a < 0.25) {
+					continue // sizes beyond the single-precision range: uniformly only (the oracle's merge tolerance is relative to the solid's largest size)
+				}
+				if !c.Next() {
+					continue
+				}
+				cs := scaled(b, r.b, which)
+				cs.Pre = []Case{scaled(b, r.a, which)}
+				one(c, cs)
+				n++
+			}
+		}
+	}
+	c.Bound("near_twins", fmt.Sprintf("%d kinds x %d size relations x {all sizes, first size, second size}: the second of two consecutive calls is judged", len(bases), len(rels)))
 }
